@@ -220,8 +220,48 @@ def run_model(requests: list[dict], timeout=1200) -> list[dict]:
 # --------------------------------------------------------------------------------------------
 
 
+class capture_logs:
+    """context manager: re-enable logging and collect the records emitted through `self.logger`"""
+
+    def __init__(self, name="hapverif-capture"):
+        import logging
+
+        self.records = []
+        self.logger = logging.getLogger(name + str(id(self)))
+        self.logger.propagate = False
+        self.logger.setLevel(logging.DEBUG)
+        outer = self
+
+        class H(logging.Handler):
+            def emit(self, record):
+                outer.records.append((record.levelname, record.getMessage()))
+
+        self._h = H()
+        self.logger.addHandler(self._h)
+
+    def __enter__(self):
+        import logging
+
+        logging.disable(logging.NOTSET)
+        return self
+
+    def __exit__(self, *a):
+        import logging
+
+        logging.disable(logging.CRITICAL)
+        self.logger.removeHandler(self._h)
+        return False
+
+    def has(self, level):
+        return any(l == level for l, _ in self.records)
+
+
 def import_haptools():
     """import haptools from REPO's working tree (never from a stale copy)"""
+    import logging
+
+    logging.disable(logging.CRITICAL)  # haptools' default loggers write to stderr; checks that observe
+    # warnings use `capture_logs`
     sys.path.insert(0, str(REPO))
     import haptools  # noqa
 
